@@ -261,6 +261,28 @@ def run(ctx):
             if path not in shapes:
                 ctx.bad(R_key, "%s|no-fix-key" % path.split("::")[-1], "-", "no (key + pos) ^ size expression found", "FIX_KEY files cannot be decrypted through this entry point")
 
+    # 3b. sibling readers agree on the un-normalised position operand (absolute vs archive-relative)
+    posx = {}
+    for path in ("archive::Archive::read_file", "archive::Archive::read_file_by_indices", "archive::Archive::read_patch_file_raw"):
+        f = fns.get(M + path)
+        if f is None:
+            continue
+        inl = _c03.make_inliner(f.hir["body"])
+        for x in hirq.walk(f.hir["body"]):
+            if x.get("k") == "bin" and x["op"] == "^" and "wrapping_add" in hirq.render(x):
+                wa = next((c for c in hirq.walk(x) if c.get("k") == "mcall" and c["m"] == "wrapping_add"), None)
+                posx[path] = (re.sub(r"\b(file_info|info|fi)\b", "FI", hirq.render(inl(wa["args"][0]))), x["ln"], f)
+                break
+    if len(posx) >= 2:
+        from collections import Counter
+        maj, _n = Counter(v[0] for v in posx.values()).most_common(1)[0]
+        for path, (r_, ln, f) in sorted(posx.items()):
+            if r_ == maj:
+                ctx.ok(R_key, {"fn": path, "position_operand": r_})
+            else:
+                ctx.bad(R_key, "%s|position-operand" % path.split("::")[-1], "%s:%d" % (f.file, ln), "this reader adds `%s` into the key; its sibling readers add `%s`" % (r_, maj),
+                        "the same FIX_KEY file decrypts through one entry point and not through the other whenever the two operands differ (archive not at offset 0)")
+
     # 4. flags
     cg = mirg.CallGraph([mpq])
     def flags_in(paths):
